@@ -1,6 +1,7 @@
 import SFV.Proofs.AppsGlue
 import SFV.Proofs.AppsSubgraph
 import SFV.Proofs.AppsSearch
+import SFV.Proofs.AppsCliqueSearch
 
 /-!
 # C19 — GBS application helpers are combinatorially exact and structurally sound
@@ -171,6 +172,59 @@ theorem shrink_select_rule (g : Graph) (ws : Option (List Int)) {pick : Pick} (h
       weightOf g w (choose pick step (shrinkCands g ws S) 0) ≤ weightOf g w u) :=
   shrinkCands_spec g ws S _ (choose_mem hp step (shrinkCands_ne_nil g ws hS) 0)
 
+/-! ### `clique.search`: every round uses the caller's selection rule -/
+
+/-- **the recursion of `clique.search` is the explicit iteration of `grow` and `swap` with the SAME
+`sel`** (and the random choices continuing where the previous call stopped): one round, then either stop
+(nothing changed / budget used) or continue from the swapped clique. -/
+theorem cliqueSearch_round_equation (g : Graph) (sel : Sel) (pick : Pick) (it step : Nat) (C : List Nat) :
+    cliqueSearchLoop g sel pick (it + 1) step C =
+      match grow g C sel (shiftPick pick step) with
+      | .error e => .error e
+      | .ok grown =>
+        match swap g grown sel (shiftPick pick (step + (grown.length - (distinct C).length))) with
+        | .error e => .error e
+        | .ok swapped =>
+          if setEq grown swapped || it == 0 then .ok swapped
+          else cliqueSearchLoop g sel pick it
+            (step + (grown.length - (distinct C).length) +
+              (if (c1 g (distinct grown)).isEmpty then 0 else 1)) swapped :=
+  cliqueSearchLoop_succ g sel pick it step C
+
+/-- **refinement.**  For every lawful choice function, a successful `clique.search` is a documented run:
+a chain of rounds `grow g · sel` / `swap g · sel` (each for some lawful choices), stopped exactly when a
+round changes nothing or the iteration budget is used — `sel` is the caller's in EVERY round. -/
+theorem cliqueSearch_is_documented_run {g : Graph} {sel : Sel} {pick : Pick} (hp : Lawful pick)
+    {clique r : List Nat} {it : Nat} (h : cliqueSearch g clique it sel pick = .ok r) :
+    1 ≤ it ∧ SearchRun g sel it clique r :=
+  cliqueSearch_run hp h
+
+/-- what every round of such a run guarantees: the grown set is a maximal clique containing the round's
+input, the swapped set is a clique of the same size, and the exchange (if any) is one of the `C1` pairs the
+rule `sel` allows (`swap_select_rule`); growth obeys `grow_select_rule` with the same `sel`. -/
+theorem cliqueSearch_round_rule {g : Graph} (hs : Simple g) {sel : Sel} {C G S : List Nat}
+    (h : SearchRound g sel C G S) :
+    IsClique g G ∧ (∀ v ∈ C, v ∈ G) ∧ c0 g G = [] ∧
+    IsClique g S ∧ (∀ v ∈ S, v ∈ g.nodes) ∧ S.Nodup ∧ S.length = G.length ∧
+    (distinct C).length ≤ S.length ∧
+    ((c1 g G = [] ∧ S = sortAsc G) ∨ (∃ p ∈ swapCands g sel (c1 g G), S.Perm (p.2 :: G.erase p.1))) :=
+  searchRound_spec hs h
+
+/-- the result of `clique.search` is a clique of the input graph at least as large as the input -/
+theorem cliqueSearch_clique {g : Graph} (hs : Simple g) {sel : Sel} {pick : Pick} (hp : Lawful pick)
+    {clique r : List Nat} {it : Nat} (h : cliqueSearch g clique it sel pick = .ok r) :
+    IsClique g r ∧ (∀ v ∈ r, v ∈ g.nodes) ∧ r.Nodup ∧ (distinct clique).length ≤ r.length :=
+  searchRun_spec hs (cliqueSearch_run hp h).2
+
+/-- it succeeds exactly for a positive iteration budget on a clique of the graph (no later round raises);
+`iterations < 1` raises -/
+theorem cliqueSearch_accepts_exactly {g : Graph} (hs : Simple g) {pick : Pick} (hp : Lawful pick)
+    (clique : List Nat) (it : Nat) (sel : Sel) :
+    ((∃ r, cliqueSearch g clique it sel pick = .ok r) ↔
+      (1 ≤ it ∧ (∀ v ∈ clique, v ∈ g.nodes) ∧ IsClique g clique ∧ selOk g sel = true)) ∧
+    cliqueSearch g clique 0 sel pick = .error .iterations :=
+  ⟨cliqueSearch_ok_iff hs hp clique it sel, cliqueSearch_zero g clique sel pick⟩
+
 /-! ## subgraph resizing and the density-ranked lists (`subgraph.py`) -/
 
 /-- **resize.**  Every requested size occurs exactly once, and its entry is a sorted duplicate-free set
@@ -304,6 +358,20 @@ example : c1 exG [0, 1, 2] = [(0, 3)] ∧ swap exG [0, 1, 2] .degree exPick = .o
     swap exG [3, 4, 5] .uniform exPick = .ok [3, 4, 5] := by decide
 example : shrink exG [0, 1, 2, 3, 4] (.weight [3, 1, 2, 0, 0, 0]) exPick = .ok [0, 1, 2] ∧
     shrink exG [0, 1, 2, 3, 4] .uniform exPick = .ok [1, 2, 3] := by decide
+-- clique.search: the selection rule matters in the SECOND round (first swap succeeds, then C0 = {4, 5, 6}
+-- with degrees 3, 5, 4): degree / weight selection reaches the 5-clique, uniform with the same choices does not
+/-- triangle {0,1,2}; 3 swaps in for 0; then 4 is a dead end while 5, 6 extend {1,2,3} to a 5-clique -/
+def exS : Graph :=
+  Graph.ofEdges [0, 1, 2, 3, 4, 5, 6, 7, 8, 9]
+    [(0, 1), (0, 2), (1, 2), (3, 1), (3, 2), (3, 8), (3, 9), (4, 1), (4, 2), (4, 3), (5, 1), (5, 2), (5, 3),
+     (5, 6), (5, 7), (6, 1), (6, 2), (6, 3)]
+example : Simple exS := ofEdges_simple (by decide) (by decide)
+example : cliqueSearch exS [0, 1] 1 .degree (fun _ _ => 0) = .ok [1, 2, 3] ∧
+    cliqueSearch exS [0, 1] 2 .degree (fun _ _ => 0) = .ok [1, 2, 3, 5, 6] ∧
+    cliqueSearch exS [0, 1] 2 (.weight [4, 6, 5, 36, 8, 28, 20, 2, 1, 3]) (fun _ _ => 0) = .ok [1, 2, 3, 5, 6] ∧
+    cliqueSearch exS [0, 1] 2 .uniform (fun _ _ => 0) = .ok [1, 2, 3, 5] ∧
+    cliqueSearch exS [0, 1] 0 .degree (fun _ _ => 0) = .error .iterations ∧
+    cliqueSearch exS [0, 3] 2 .degree (fun _ _ => 0) = .error .notClique := by decide
 -- resize with weights over a range on both sides of the starting size
 example : resize exG [1, 2, 3] 2 5 (.weight [3, 1, 2, 0, 0, 7]) exPick =
     .ok [(3, [1, 2, 3]), (4, [0, 1, 2, 3]), (5, [0, 1, 2, 3, 5]), (2, [1, 2])] := by decide
